@@ -74,6 +74,41 @@ CLAIMED.update({
                 tech="error-discipline / must-pass-through / guard dominance on statement CFGs", ref="3/C17"),
 })
 
+CLAIMED.update({
+    "C05": dict(cat="other",
+                text="Init verdict dominated by the residual test with only the two sanctioned residual writes before it; hand-over "
+                     "ordering in TDS.init / System.init / Model.init; for all 97 models the generated init_seq respects the "
+                     "dependencies of every declared initialiser; sibling rule: all 16 models that take over p/q of a static device "
+                     "switch it off in v_numeric; thorough tier: 739 symbolic equilibrium obligations e[v := v_str] == 0 against a "
+                     "committed baseline.",
+                note="That initialisation succeeds for every consistent case and that an undisturbed run stays put are declined. "
+                     "Equilibrium obligations that need power-flow relations are not claimed.",
+                tech="CFG ordering/dominance + IR dependency check + sibling rule + DSL substitution with sympy zero test", ref="3/C05"),
+    "C06": dict(cat="other",
+                text="Exact-time comparator idioms (with positive control); every advance of the event pointer is dominated by the "
+                     "dispatch of that event and every dispatch followed by the advance; t0 events dispatched between schedule "
+                     "construction and the first calc_h; schedule-table construction; all callbacks stored in TimerParam.callback "
+                     "slots (+TimeSeries.apply_exact) execute their effect iff is_time[i] and u[i] (4 valuations) on the device "
+                     "addressed by the loop index; step clipping shared with C04.",
+                note="Floating-point exactness of t + (ts - t) == ts and arbitrary schedules are runtime facts: declined.",
+                tech="call-pairing/typestate on CFG + sibling cross-check with guard evaluation over finite valuations", ref="3/C06"),
+    "C09": dict(cat="other",
+                text="The check_var/check_eq methods of Limiter, HardLimiter, DeadBand, LessThan, IsEqual, AntiWindup, RateLimiter, "
+                     "DeadBandRT are interpreted (scalar abstract interpreter over their ASTs) on one representative per order type "
+                     "of their inputs x all constructor options (>8000 cases): flags exhaustive/one-hot/agree with comparisons, clamp "
+                     "algebra, x_set layout vs its three consumers, evaluation order, self-comparison lint, exhaustive time splits.",
+                note="Comparison-only code is invariant within an order type, so the enumeration is exhaustive for all real inputs. "
+                     "Limit adjustment at initialisation (do_adjust_*) is skipped.",
+                tech="order-type abstract interpretation of method ASTs (finite, exhaustive)", ref="3/C09"),
+    "C18": dict(cat="other",
+                text="Every block class is elaborated in a synthetic host model through the real export path; the exported equations "
+                     "are Laplace-transformed and solved over Q(s, params); Y/U is proved equal to the documented transfer function "
+                     "(24 blocks, 3 bypass cases); constant-input balance of the declared initial values (56 equations); limited "
+                     "variants == unlimited siblings inside the limits; every stored constructor parameter is used.",
+                note="Reference table transcribed from the class docstrings (rules/c18.py). The property's own quantifier is symbolic.",
+                tech="Laplace-domain elimination in Q(s, params) by CAS normal form + dataflow lint", ref="3/C18"),
+})
+
 NOT_YET = {}
 
 NA = {
